@@ -482,6 +482,10 @@ pub fn run(ctx: &mut Ctx) {
             return;
         };
         let (new_files, _new_dirs) = snapshot(&d0);
+        // each observer is compared with its own reading of the old and of the new state (git does not list
+        // dangling symbolic refs, gitoxide reads them as what they are)
+        let old_gview = gix_view(&tmpl, &sc.names);
+        let new_gview = gix_view(&d0, &sc.names);
         let new_view = match git_view(&d0, &sc.names) {
             Ok(v) => v,
             Err(e) => {
@@ -530,6 +534,7 @@ pub fn run(ctx: &mut Ctx) {
             for chunk in chunks {
                 let (tmpl, work, exe, sc_spec, names) = (&tmpl, &work, &exe, &sc.spec, &sc.names);
                 let (old_files, new_files, old_view, new_view, window, base, ordinals) = (&old_files, &new_files, &old_view, &new_view, &window, trace.base, &trace.ordinals);
+                let (old_gview, new_gview) = (&old_gview, &new_gview);
                 hs.push(s.spawn(move || {
                     let mut out = Vec::new();
                     for k in chunk {
@@ -562,6 +567,7 @@ pub fn run(ctx: &mut Ctx) {
                                     problems.push((format!("ref-state|git|{}", classify(g, o, nw)), format!("{n}: git reads {:?}, old {:?}, new {:?}", g, o, nw)));
                                 }
                                 let x = gview.get(n);
+                                let (o, nw) = (old_gview.get(n), new_gview.get(n));
                                 if x != o && x != nw {
                                     problems.push((format!("ref-state|gitoxide|{}", classify(x, o, nw)), format!("{n}: gitoxide reads {:?}, old {:?}, new {:?}", x, o, nw)));
                                 }
@@ -615,7 +621,7 @@ pub fn run(ctx: &mut Ctx) {
                 ctx.violation(
                     &format!("{sig}|killed-before:{sys}:{class}"),
                     what,
-                    json!({"spec": sc.spec, "shape": sc.shape, "kill_index": cr.k, "killed_before": cr.syscall, "window": window, "old": old_view, "new": new_view}),
+                    json!({"spec": sc.spec, "shape": sc.shape, "kill_index": cr.k, "killed_before": cr.syscall, "window": window, "old": old_view, "new": new_view, "old_as_gitoxide_reads_it": old_gview, "new_as_gitoxide_reads_it": new_gview}),
                 );
             }
         }
